@@ -404,6 +404,17 @@ theorem when_group_same_formula (g : G) (es : List GroupFlow.FEv) (k : Nat) :
         ∀ j, j < k → eval (GroupFlow.know es j).possible g = true)) :=
   ⟨await_group_same_formula g es k, group_fails_iff_unsatisfiable g es k⟩
 
+/-- with no failures the flow-level machine is the clause machine of `match`: "flow `a` finished" plays the role of event `a` -/
+theorem flow_marker_eq_match_marker (g : G) (es : List Nat) (k : Nat) :
+    (GroupFlow.outs g (es.map GroupFlow.FEv.fin))[k]? = some .marker ↔ (markers g es)[k]? = some true := by
+  rw [await_group_same_formula, group_completes_at_first_sat]
+  have hfin : ∀ j, (GroupFlow.know (es.map GroupFlow.FEv.fin) j).finished = seen es j := by
+    intro j
+    funext a
+    simp only [GroupFlow.know, GroupFlow.Know.finished, seen, ← List.map_take]
+    rw [(GroupFlow.knowFrom_fin (es.take (j + 1)) {} rfl).2 a]
+    simp
+  simp only [hfin, List.length_map]
 /-- Marker and failure exclude each other and each happens at most once: at most one index of a run is not quiet. -/
 theorem flow_outcome_at_most_once (g : G) (es : List GroupFlow.FEv) (i j : Nat) (oi oj : GroupFlow.Out)
     (hoi : oi ≠ .quiet) (hoj : oj ≠ .quiet)
